@@ -228,6 +228,13 @@ func PopulateStructFields(m map[string]any, data any) {
 
 		// Add the field itself (for path resolution like item.inStock)
 		m[tagName] = fieldValue
+		// The field is also addressable by its Go name (as Stack.Lookup allows);
+		// under that name it keeps its Go value, so nested Go names resolve too.
+		if tagName != f.Name {
+			if _, taken := m[f.Name]; !taken {
+				m[f.Name] = fv.Interface()
+			}
+		}
 	}
 }
 
